@@ -83,7 +83,7 @@ func c14W3(r *core.R) {
 		}
 		switch {
 		case len(scans) == 0:
-			r.Bad(c, call.Pos(), "%s before `%s`: on a reference cycle (1→2→1, or the self reference 1→1) the recursion never ends", why, src(fs, call))
+			r.Bad(c, call.Pos(), "before `%s`: %s", src(fs, call), why)
 		case len(good) == 0:
 			r.Bad(c, scans[0].loop.stmt.Pos(), "the comparison with the member id is not evaluated for every element of the path (an iteration of the scan at %s can go round without it): an ancestor can be missed and the cycle recursed into again", m.rel(scans[0].loop.stmt.Pos()))
 		default:
